@@ -23,9 +23,11 @@ mod c06;
 mod c07;
 mod c09x;
 mod c10;
+mod c11;
 mod c12;
 mod c13;
 mod c14;
+mod c15;
 mod c17;
 
 type CheckFn = fn(&Ctx);
@@ -50,9 +52,11 @@ fn checks() -> Vec<Check> {
         Check { id: "C08", level: "model_checking", run: c07::run08, replay: Some(c07::replay08) },
         Check { id: "C09", level: "model_checking", run: c07::run09, replay: Some(c07::replay09) },
         Check { id: "C10", level: "model_checking", run: c10::run, replay: Some(c10::replay) },
+        Check { id: "C11", level: "model_checking", run: c11::run, replay: Some(c11::replay) },
         Check { id: "C12", level: "model_checking", run: c12::run, replay: Some(c12::replay) },
         Check { id: "C13", level: "model_checking", run: c13::run, replay: Some(c13::replay) },
         Check { id: "C14", level: "model_checking", run: c14::run, replay: Some(c14::replay) },
+        Check { id: "C15", level: "model_checking", run: c15::run, replay: Some(c15::replay) },
         Check { id: "C17", level: "model_checking", run: c17::run, replay: Some(c17::replay) },
     ]
 }
